@@ -540,6 +540,27 @@ func (fc *FCtx) specCall(n *SNode, env *Env) Val {
 	case "enc":
 		evalArgs()
 		return Val{T: app(fc.encFn(args[0].S), args[0].T), S: fc.U.BzSort()}
+	case "isolated":
+		evalArgs()
+		suf, ok := fc.ctxSuffixOf[args[0].T]
+		if !ok {
+			// the function's own context parameter (or a non-cache context): nothing to say
+			if len(fc.frames) > 0 && env.gsuf == "" && env.scopePos.IsValid() {
+				return Val{T: "true", S: SBool}
+			}
+			return Val{T: "false", S: SBool}
+		}
+		parent := fc.cacheParent[suf]
+		var cs []string
+		st := env.state()
+		for _, g := range fc.ghostNames(st) {
+			if strings.HasSuffix(g, suf) {
+				if pv, ok := st.ghost[baseGhost(g)+parent]; ok && pv.T != st.ghost[g].T {
+					cs = append(cs, fmt.Sprintf("(= %s %s)", st.ghost[g].T, pv.T))
+				}
+			}
+		}
+		return Val{T: and(cs...), S: SBool}
 	case "str":
 		evalArgs()
 		bzs := fc.U.BzSort()
@@ -576,7 +597,9 @@ func (fc *FCtx) specCall(n *SNode, env *Env) Val {
 	case "zero":
 		tn := n.Args[1]
 		name := tn.Name
-		if tn.Op == "field" {
+		if tn.Op == "str" {
+			name = tn.Name
+		} else if tn.Op == "field" {
 			name = tn.Args[0].Name + "." + tn.Name
 		}
 		s, t := fc.resolveSpecType(name, env.pkg)
